@@ -30,12 +30,64 @@ def gen_cases(ctx, rng):
         stats["T"][str(T)] = stats["T"].get(str(T), 0) + 1
         cases.append({"dir": rng.choice(["upstream", "downstream"]), "chain": pre + [L.tx("timeout", name="t", timeout=T)] + post,
                       "src": src, "horizon": 3600 * 1000 * L.MS, "seed": i})
+    # removal at any time: the connection is closed at the removal, nothing is delivered - also not what is parked in a stage
+    # upstream of the toxic or arrives during the removal; and: toxic added later, on a connection that already carried data
+    m = 60 if ctx.tier == "quick" else 1500
+    stats["removed"] = stats["added_later"] = 0
+    for i in range(m):
+        T = rng.choice([0, 0, 500, 10000])
+        lat = rng.choice([0, 0, 30, 300, 3000])
+        pre = ([L.tx("noop", name="n0")] if rng.chance(1, 3) else []) + ([L.tx("latency", name="l0", latency=lat, jitter=0)] if lat else [])
+        R = rng.range(20, 400) * L.MS + rng.range(1, 999)
+        src, t = [], rng.range(1, 10) * L.MS + 7
+        period = rng.choice([1, 3, 7, 23, 60]) * L.MS + rng.range(1, 999)
+        while t < R + 200 * L.MS and len(src) < 60:
+            src.append({"at": t, "n": rng.range(1, 1500)})
+            t += period
+        src.append({"at": max(t, R + rng.choice([5000, 20000]) * L.MS), "close": True})
+        c = {"dir": rng.choice(["upstream", "downstream"]), "src": src, "horizon": 3600 * 1000 * L.MS, "seed": 1000 + i}
+        if rng.chance(2, 3):
+            c["chain"] = pre + [L.tx("timeout", name="t", timeout=T)]
+            c["ops"] = [{"at": R, "op": "remove", "name": "t"}]
+            c["c10"] = {"family": "remove", "at": R, "T": T}
+            stats["removed"] += 1
+        else:
+            c["chain"] = pre
+            c["ops"] = [{"at": R, "op": "add", "toxic": L.tx("timeout", name="t", timeout=T)}]
+            c["c10"] = {"family": "add", "at": R, "T": T}
+            stats["added_later"] += 1
+        cases.append(c)
     return cases, stats
 
 
 def oracle(case, res):
     if res is None or "crash" in res:
         return "the process crashed: " + (res or {}).get("crash", "")[-300:]
+    fam = case.get("c10")
+    if fam and fam["family"] == "remove":
+        R, T = fam["at"], fam["T"]
+        if res["total"] != 0:
+            return "%d bytes were delivered although a timeout toxic was in effect until it was removed at %d ns (removal must close, not resume)" % (res["total"], R)
+        exp = R if (T == 0 or R < T * L.MS) else T * L.MS
+        if res["closed"] != exp:
+            return "connection closed at %d ns, expected %d ns (%s)" % (res["closed"], exp, "the removal" if exp == R else "T")
+        return None
+    if fam and fam["family"] == "add":
+        A, T = fam["at"], fam["T"]
+        late = [w for w in (res["writes"] or []) if w["t"] > A]
+        if late:
+            return "%d bytes were delivered at %d ns, after the timeout toxic took effect at %d ns" % (late[0]["n"], late[0]["t"], A)
+        before = sum(e.get("n", 0) for e in case["src"] if e["at"] < A)
+        if res["total"] > before or not res.get("prefix_ok", True):
+            return "%d bytes were delivered but only %d were sent before the timeout toxic took effect" % (res["total"], before)
+        sc = [e["at"] for e in case["src"] if e.get("close")][0]
+        if T > 0 and sc > A + T * L.MS and res["closed"] != A + T * L.MS:
+            return "connection closed at %d ns, expected %d ns (T = %d ms after the toxic took effect at %d)" % (res["closed"], A + T * L.MS, T, A)
+        if T > 0 and not (min(sc, A + T * L.MS) <= res["closed"] <= A + T * L.MS):
+            return "connection closed at %d ns, expected between the sender's close at %d and %d ns (T = %d ms after the toxic took effect)" % (res["closed"], sc, A + T * L.MS, T)
+        if T == 0 and res["closed"] != -1 and res["closed"] < [e["at"] for e in case["src"] if e.get("close")][0]:
+            return "T = 0: connection closed at %d ns, expected only the sender's close" % res["closed"]
+        return None
     ts = [t for t in case["chain"] if t["type"] == "timeout"]
     if not ts:
         return None
@@ -63,11 +115,14 @@ def run(ctx):
         ctx, PID, gen_cases, oracle,
         classify=lambda w: "close-time" if "closed at" in w else ("data-leaks" if "delivered" in w else "crash"),
         rule="links with one timeout toxic (T from {0,1,50,100,250,10000} ms) behind 0-2 noop/latency stages; 0-12 writes with periods "
-             "below/near/above T (never exactly at T), sender closing before or after T; non-trivial = T > 0 and at least two writes "
+             "below/near/above T (never exactly at T), sender closing before or after T; plus links where the toxic (T in {0,500,10000}) is removed at a "
+             "random instant under continuous traffic with chunks parked in a latency stage upstream of it, and links where it is added on a "
+             "connection that already carries traffic; non-trivial = T > 0 and at least two writes "
              "arrive before T; distinct by JSON",
         nontrivial=lambda c: any(t["type"] == "timeout" and t["attributes"]["timeout"] > 0 for t in c["chain"]) and len(c["src"]) > 2,
-        assumptions=["removal of a timeout toxic (Cleanup closes the stub) is exercised by the reconfiguration runs of C02/C04",
-                     "a chunk arriving at exactly T is a genuine race in the code (select picks either arm); generators avoid the tie"])
+        assumptions=["the families with a removal or a late addition are judged by the oracle only (the executable model replays static chains)",
+                     "a chunk arriving at exactly T is a genuine race in the code (select picks either arm); generators avoid the tie"],
+        model_filter=lambda c: not c.get("ops"))
 
 
 def replay(ctx, path):
